@@ -199,6 +199,7 @@ extern "C" void c10_hit_vary(void)
     sym(12, "type2"); sym(13, "len2_0");
 #endif
     // oracle for Vary: an accepted Vary field's value without trailing NULs must equal "x"
+    const uint64_t fileSzV = theEntry->swap_file_sz;
     bool accepted = false;
     try { Store::UnpackHitSwapMeta(reinterpret_cast<const char *>(buf), blen, *theEntry); accepted = true; } catch (const std::exception &) {}
     vf_observe("accepted", accepted);
@@ -216,9 +217,24 @@ extern "C" void c10_hit_vary(void)
             pos += 5 + (size_t)len;
         }
         vf_assert(theMem->vary_headers.cmp("x") == 0, "accepted hit: known Vary is unchanged");
+        // the stored object-size field (7 here) is informational: the size of the hit is what the entry's size says
+        if (fileSzV > 0) vf_assert(theMem->object_sz == (int64_t)(fileSzV - (uint64_t)hs), "object size = entry size - header size");
+        else vf_assert(theMem->object_sz == -1, "unknown entry size leaves the object size unknown");
         vf_reach("accepted");
     } else vf_reach("refused");
     WITNESS_POINT();
+}
+// ---- family 3b: prefix + key field + object-size field whose two low value bytes are symbolic (a stored size that agrees or disagrees
+// with the entry's size, e.g. after a header update rewrote the metadata): the hit's size is entry size - header size in every case
+extern "C" void c10_hit_objsize(void)
+{
+    vf_quiet(); makeEntry(true, nullptr);
+    startHeader(5 + 21 + 13);
+    const int64_t objsz = 0;
+    size_t p = putField(5, Store::STORE_META_KEY_MD5, KEY, 16);
+    putField(p, Store::STORE_META_OBJSIZE, &objsz, 8);
+    sym(p + 5, "objsize0"); sym(p + 6, "objsize1");
+    hit();
 }
 // ---- family 4: every buffer of 0..NANY fully symbolic bytes
 extern "C" void c10_hit_any(void)
